@@ -424,12 +424,12 @@ func genCases(c *lib.Ctx) []caseSpec {
 			add(s, a, pickMode())
 		}
 	} else {
-		for _, s := range allShapes(4, []int{1, 2, 3}) {
+		for _, s := range allShapes(5, []int{1, 2, 3}) {
 			for _, a := range subsets(len(s)) {
 				add(s, a, "before", "after")
 			}
 		}
-		for k := 0; k < 5; k++ {
+		for k := 0; k < 10; k++ {
 			s := make([]int, 8)
 			for j := range s {
 				s[j] = lib.Pick(rng, []int{1, 1, 2, 3})
@@ -443,7 +443,7 @@ func genCases(c *lib.Ctx) []caseSpec {
 				add(s, a, pickMode())
 			}
 		}
-		for i := 0; i < 1500; i++ {
+		for i := 0; i < 4000; i++ {
 			u := 5 + rng.Intn(36)
 			s := make([]int, u)
 			a := make([]bool, u)
@@ -463,7 +463,7 @@ func genCases(c *lib.Ctx) []caseSpec {
 func run(c *lib.Ctx) {
 	c.Rule("case = (block shape: unit sizes after the miner tx, 1 = single tx, k = group of k; availability subset of the units in the real pool when the light block arrives; arrival plan). " +
 		"Quick: every shape over {1,2,3} with <=2 units and 8 fixed 3/4-unit shapes with every availability subset, one 8-unit shape with a quarter of its 256 subsets (chosen by the seed), 24 sampled larger blocks; " +
-		"thorough: every shape with <=4 units x every subset x both arrival plans, five 8-unit shapes x all 256 subsets, 1500 sampled larger blocks (groups up to 20). " +
+		"thorough: every shape with <=5 units x every subset x both arrival plans, ten 8-unit shapes x all 256 subsets, 4000 sampled larger blocks (groups up to 20). " +
 		"The light block is built by the sender-side buildLtBlock and published through gossipsub by one of two sender peers; missing units enter the pool either before the pending timeout " +
 		"(immediately or after >= 1 tick of the pending loop, measured arrival <= 60% of the timeout, else the case is discarded) or only after the block request reached the sender. " +
 		"Oracle: every block handed to the blockchain topic for the case's height must be byte-identical to the original (transactions, positions, hash); all available => a post; " +
